@@ -69,12 +69,7 @@ Theorem C11_bridged_group_never_titratable : forall (E : Type) k is_cys (env : E
   g_titratable (snd (flag_run (flag_init k is_cys true env) ops)) = false.
 Proof. intros E. exact bridged_from_init. Qed.
 Theorem C11_bridge_flag_never_cleared : forall (E : Type) (st : flag_state E) ops, fst st = true -> fst (flag_run st ops) = true.
-Proof. intros E st ops Hb. destruct (g_titratable (snd st)) eqn:Hg.
-  - revert st Hb Hg. unfold flag_run. induction ops as [|o ops IH]; cbn [fold_left]; intros st Hb Hg; [exact Hb|].
-    destruct (g_titratable (snd (flag_step st o))) eqn:H2; [apply IH; [apply flag_step_bridge_monotone; exact Hb | exact H2]|].
-    apply (bridged_never_titratable ops (flag_step st o)); [apply flag_step_bridge_monotone; exact Hb | exact H2].
-  - apply (bridged_never_titratable ops st Hb Hg).
-Qed.
+Proof. intros E. exact bridge_flag_never_cleared. Qed.
 Theorem C11_free_group_flags : forall (E : Type) k is_cys (env : E) mps o,
   g_titratable (snd (flag_run (flag_init k is_cys false env) [OpSetup mps; OpRestrict o])) =
   mps && match o with None => true | Some l => key_mem k l end.
